@@ -12,7 +12,7 @@ for m in sys.argv[3:]:
     shutil.copy(os.path.join(src, "out", "demo%s.sh" % a), os.path.join(d, "demo.sh"))
     shutil.copy(os.path.join(src, "out", "meta%s.txt" % a), os.path.join(d, "meta.txt"))
     meta = open(os.path.join(d, "meta.txt")).read()
-    json.dump({"property": pid, "source": "independent sub-agent given only the property text and a scratch worktree (round %s)" % {"A": 1, "B": 1, "C": 2, "D": 2, "E": 3, "F": 3, "G": 4, "H": 4, "I": 5, "J": 5, "K": 6, "L": 6, "M": 7, "N": 7}.get(b, "?"),
+    json.dump({"property": pid, "source": "independent sub-agent given only the property text and a scratch worktree (round %s)" % {"A": 1, "B": 1, "C": 2, "D": 2, "E": 3, "F": 3, "G": 4, "H": 4, "I": 5, "J": 5, "K": 6, "L": 6, "M": 7, "N": 7, "O": 8, "P": 8}.get(b, "?"),
                "needs_to_manifest": meta.strip(), "confirmed": "see DESIGN.md section 16 (selftest --verify)"},
               open(os.path.join(d, "meta.json"), "w"), indent=1, ensure_ascii=False)
     print("collected", d)
